@@ -52,6 +52,7 @@ func Harness_C01_ThirdParty() {
 	x, xOK := k.addr(xs)
 	verifAssume(xOK)
 	dx := verifSymStr("denomX")
+	verifAssume(sdk.ValidateDenom(dx) == nil) // only valid denoms can be held (the bank panics on others)
 	preX := k.bal(ctx, x, dx)
 
 	st := anyStep(ms, ctx)
@@ -74,11 +75,14 @@ func Harness_C01_ThirdParty() {
 
 // C01 (3): a message naming another bridge changes nothing recorded under bridge a. One observation per
 // harness keeps the pre-state case split small.
-func isoSetup() (Keeper, MsgServer, sdk.Context, uint64) {
+func isoSetup() (Keeper, MsgServer, sdk.Context, uint64) { return isoSetupN(1) }
+
+// isoSetupN: outputs = closed-world bound on stored outputs in the quick tier (one more in thorough)
+func isoSetupN(outputs int) (Keeper, MsgServer, sdk.Context, uint64) {
 	if verifThorough() {
-		boundStores(2, 2)
+		boundStores(outputs+1, 2)
 	} else {
-		boundStores(1, 1)
+		boundStores(outputs, 1)
 	}
 	verifConfig("maxlen:RegistrationFee", 1)
 	k, ms, ctx := setup()
@@ -100,7 +104,9 @@ func Harness_C01_Isolation_Sequences() {
 }
 
 func Harness_C01_Isolation_Outputs() {
-	k, ms, ctx, a := isoSetup()
+	// two stored outputs even in the quick tier: a message on one bridge that removes an output of another
+	// bridge needs an output under each of them
+	k, ms, ctx, a := isoSetupN(2)
 	oi := verifSymU64("obsIndex")
 	outPre, outPreErr := k.GetOutputProposal(ctx, a, oi)
 	st := anyStep(ms, ctx)
